@@ -742,12 +742,12 @@ theorem exSrc_grid : SplitGrid exSrc.es := by
 theorem exTg_hyps : exTg.getTier "src" = .ok (.I exSrc) ∧ exSrc.WF ∧ SplitGrid exSrc.es ∧
     exTg.lo = some 0 ∧ exTg.hi = some 640 := ⟨by simp [exTg, Tg.getTier, AnyTier.name, exSrc], exSrc_wf, exSrc_grid, rfl, rfl⟩
 
-/-- S1-1 (fixed in /repo 829c54c): an entry whose label has no words contributes nothing (was: ZeroDivisionError) -/
+/-- S1-1 (fixed in /repo 51efa36): an entry whose label has no words contributes nothing (was: ZeroDivisionError) -/
 theorem split_blank_regression (s e : Int) : splitWords (⟨s, e, " \t "⟩ : Iv Int) = [] := by
   have : pySplit " \t " = [] := by decide
   simp [splitWords, this]
 
-/-- S1-2 (fixed in /repo f0e7eef): the last boundary is the entry's end itself, whatever `len * n` is — in ANY
+/-- S1-2 (fixed in /repo 47499b1): the last boundary is the entry's end itself, whatever `len * n` is — in ANY
 arithmetic (`α` generic), so in binary64 the last word cannot stick out of its entry by an ulp -/
 theorem split_last_boundary {α : Type} [Add α] [SplitArith α] (s e len : α) (n : Nat) : splitBound s e len n n = e := by
   simp [splitBound]
